@@ -19,7 +19,12 @@ GROUPS = {
     "PinsConvert": ["PinCompleteStatus"],                                   # C14
     "PinsCold": ["PinDefer", "PinFromFn", "PinBoxIt"],                      # C13
     "PinsCells": ["PinRc", "PinBehaviorTrait", "PinSubscribeItem"],         # C18, C10, C12
+    # scheduler.rs is tied semantically (GenTie/Scheduler); what is NOT translated — the `async move` block of `schedule()`
+    # (macro impl_scheduler_method), the spawn macros, remote_handle, new_timer — is pinned here (C19, C02, C08)
+    "PinsSched": ["PinSchedulerText"],
 }
+# groups of which only the items whose NAME matches are pinned (no count theorem then)
+ONLY = {"PinSchedulerText": r"macro impl_scheduler_method|fn remote_handle|macro \w*_spawn|impl Scheduler < T > for|trait Scheduler|fn new_timer"}
 DOC = list(out)
 total = 0
 for group, mods in GROUPS.items():
@@ -29,9 +34,12 @@ for group, mods in GROUPS.items():
         items = re.findall(r'^def (item_\d+) : String × String := (\(".*"\))$', txt, flags=re.M)
         lines.append(f"/-! ### {m} -/")
         for name, val in items:
+            if m in ONLY and not re.search(ONLY[m], val.split('", "')[0]):
+                continue
             lines.append(f"theorem pin_{m[3:]}_{name[5:]} : Rx.Gen.{m}.{name} = {val} := rfl")
             total += 1
-        lines.append(f"theorem pin_{m[3:]}_count : Rx.Gen.{m}.items.length = {len(items)} := rfl")
+        if m not in ONLY:
+            lines.append(f"theorem pin_{m[3:]}_count : Rx.Gen.{m}.items.length = {len(items)} := rfl")
         lines.append("")
     lines.append("end Rx.GenTie")
     Path(f"/verif/lean/RxModel/GenTie/{group}.lean").write_text("\n".join(lines) + "\n")
